@@ -3,7 +3,8 @@
 /verif/seeded/<name>/ (patch.diff, demo.py, meta.json), remove the worktree."""
 import json, os, shutil, subprocess, sys
 pid = sys.argv[1]; name = sys.argv[2] if len(sys.argv) > 2 else pid
-wt = f"/tmp/seed/{name}"; out = f"{wt}/_out"; dst = f"/verif/seeded/{name}"
+base = sys.argv[3] if len(sys.argv) > 3 else "/tmp/seed"
+wt = f"{base}/{pid}"; out = f"{wt}/_out"; dst = f"/verif/seeded/{name}"
 def sh(cmd, **k): return subprocess.run(cmd, shell=True, capture_output=True, text=True, **k)
 os.makedirs(dst, exist_ok=True)
 for f in ("patch.diff", "demo.py", "meta.json"):
